@@ -101,6 +101,45 @@ Proof.
 Qed.
 Print Assumptions C01_dot_rules_are_adjoints.
 
+(* linalg.inv and linalg.solve (square systems of any size, any commutative ring).  The derivative: with B the inverse of A
+   and B' the inverse of A + dA,  B' = B - B dA B'  exactly, hence  inv(A + dA) = inv A - B dA B + (second order);
+   for solve,  x' - x = B' (db - dA x).  The registered rules  -(B^T g) B^T,  B^T g  and  -(B^T g) x^T  are the adjoints
+   of the linear parts  dA |-> -B dA B,  db |-> B db,  dA |-> -B dA x. *)
+From AG Require Import LinAlg.
+Theorem C01_inv_solve_derivative_and_adjoints :
+  forall (K : Type) (k0 k1 : K) (kadd kmul ksub : K -> K -> K) (kopp : K -> K),
+    ring_theory k0 k1 kadd kmul ksub kopp eq ->
+    (forall n (A dA B B' : nat -> nat -> K),
+        meq K n n (mm K k0 kadd kmul n B A) (mid K k0 k1) ->
+        meq K n n (mm K k0 kadd kmul n (madd K kadd A dA) B') (mid K k0 k1) ->
+        forall i k, (i < n)%nat -> (k < n)%nat ->
+          B' i k = kadd (kadd (B i k) (kopp (mm K k0 kadd kmul n (mm K k0 kadd kmul n B dA) B i k)))
+                        (mm K k0 kadd kmul n (mm K k0 kadd kmul n B dA) (mm K k0 kadd kmul n (mm K k0 kadd kmul n B dA) B') i k))
+    /\ (forall n p (A dA B B' b db : nat -> nat -> K),
+        meq K n n (mm K k0 kadd kmul n B' (madd K kadd A dA)) (mid K k0 k1) ->
+        meq K n n (mm K k0 kadd kmul n A B) (mid K k0 k1) ->
+        forall i k, (i < n)%nat -> (k < p)%nat ->
+          mm K k0 kadd kmul n B' (madd K kadd b db) i k
+          = kadd (mm K k0 kadd kmul n B b i k)
+                 (mm K k0 kadd kmul n B' (madd K kadd db (mneg K kopp (mm K k0 kadd kmul n dA (mm K k0 kadd kmul n B b)))) i k))
+    /\ (forall n (G B dA : nat -> nat -> K),
+        pair K k0 kadd kmul n n G (mneg K kopp (mm K k0 kadd kmul n (mm K k0 kadd kmul n B dA) B))
+        = pair K k0 kadd kmul n n (mneg K kopp (mm K k0 kadd kmul n (mm K k0 kadd kmul n (tr K B) G) (tr K B))) dA)
+    /\ (forall n p (G B db : nat -> nat -> K),
+        pair K k0 kadd kmul n p G (mm K k0 kadd kmul n B db) = pair K k0 kadd kmul n p (mm K k0 kadd kmul n (tr K B) G) db)
+    /\ (forall n p (G B dA X : nat -> nat -> K),
+        pair K k0 kadd kmul n p G (mneg K kopp (mm K k0 kadd kmul n B (mm K k0 kadd kmul n dA X)))
+        = pair K k0 kadd kmul n n (mneg K kopp (mm K k0 kadd kmul p (mm K k0 kadd kmul n (tr K B) G) (tr K X))) dA).
+Proof.
+  intros K k0 k1 kadd kmul ksub kopp HR.
+  split; [exact (inverse_second_order K k0 k1 kadd kmul ksub kopp HR)|].
+  split; [exact (solve_displacement K k0 k1 kadd kmul ksub kopp HR)|].
+  split; [exact (inv_rule_adjoint K k0 k1 kadd kmul ksub kopp HR)|].
+  split; [exact (solve_rule_adjoint_b K k0 k1 kadd kmul ksub kopp HR)|].
+  exact (solve_rule_adjoint_a K k0 k1 kadd kmul ksub kopp HR).
+Qed.
+Print Assumptions C01_inv_solve_derivative_and_adjoints.
+
 Theorem C01_maximum_generalised_gradient :
   (forall x y, y < x ->
      is_derive (fun t => Rmax t y) x (vjp_maximum_0 (Rmax x y) x y 1)
